@@ -499,6 +499,18 @@ pub fn codec_in(rng: &mut Rng) -> Case {
     cfg.rich = true;
     let variant = rng.below(10);
     let mut g = Gen::new(cfg, rng);
+    // one run in ten: the Context has served a connection before, which was cut inside a packet
+    let second = g.rng.chance(1, 10);
+    if second {
+        g.cut_connection_prelude();
+    }
+    let start = |connect: ConnectSpec, auths: Vec<AuthSpec>| -> Step {
+        if second {
+            Step::Reconnect { elapsed: 100_000, connect, auths }
+        } else {
+            Step::Start { connect, auths }
+        }
+    };
     if variant < 3 {
         // connect()/authorize() results
         let mut connect = g.connect_spec();
@@ -509,7 +521,7 @@ pub fn codec_in(rng: &mut Rng) -> Case {
             connect.auth_data = Some(vec![7]);
         }
         let auths = (0..rounds).map(|_| AuthSpec { reason: Some(0x18), method: Some("M".into()), data: Some(vec![8]), user: vec![] }).collect();
-        g.push(Step::Start { connect, auths });
+        g.push(start(connect, auths));
         g.settle();
         for _ in 0..rounds {
             auth_challenge(&mut g);
@@ -529,7 +541,7 @@ pub fn codec_in(rng: &mut Rng) -> Case {
     }
     // running client: rich CONNACK first
     let connect = g.connect_spec();
-    g.push(Step::Start { connect, auths: vec![] });
+    g.push(start(connect, vec![]));
     g.settle();
     let mut props = rich_connack_props(g.rng, true);
     props.0.retain(|(id, _)| *id != pid::RECEIVE_MAXIMUM && *id != pid::MAXIMUM_PACKET_SIZE);
